@@ -164,9 +164,15 @@ def triggers_of(program: dict, facts: dict[str, dict]) -> dict[str, list[str]]:
         if op == "join" and st.get("how") == "full" and "join" in f.get("chain", {}).get("verbs", []):
             hit("D49", sid)
         if op in ("mutate", "filter", "summarize", "arrange"):
+            from .campaign import ancestors as _anc0
+            by_id0 = {x["id"]: x for x in program["stmts"]}
+            anc0 = _anc0(program, sid)
             found = []
             _walk(st, lambda d: found.append(1) if ("fn" in d and d.get("args") and not _has_col(d) and d["fn"] not in AGG_OPS | WIN_OPS) else None)
             _walk(st, lambda d: found.append(1) if d.get("fn") in CMP_OPS and d.get("args") and isinstance(d["args"][0], dict) and "lit" in d["args"][0] else None)
+            if not found and "join" in {by_id0[a]["op"] for a in anc0 if a in by_id0}:
+                _walk(st, lambda d: found.append(1) if d.get("fn") in ("horizontal_min", "horizontal_max") and
+                      any(isinstance(a, dict) and "lit" in a for a in d.get("args", [])) else None)
             if found:
                 hit("D51", sid)
         if op in ("mutate", "filter", "summarize", "arrange", "group_by"):
